@@ -136,14 +136,15 @@ func genDirect(rng *rand.Rand, emit func(kind, line string)) {
 		rng.Read(s[:])
 		return hexEncode(s[:])
 	}
-	direct := func(kind, op string, mode int, in *input) {
+	directSeed := func(kind, op string, mode int, in *input, seed string) {
 		l := in.line(op)
 		l = op + " " + strconv.Itoa(mode) + l[len(op):]
 		if op == "cpi" {
-			l += " " + seedHex()
+			l += " " + seed
 		}
 		emit(kind, l)
 	}
+	direct := func(kind, op string, mode int, in *input) { directSeed(kind, op, mode, in, seedHex()) }
 	zero := func(int) uint64 { return 0 }
 	for _, n := range []int{1, 5, 33} {
 		// never accepted: the cut-off is reached
@@ -156,6 +157,16 @@ func genDirect(rng *rand.Rand, emit func(kind, line string)) {
 			return 0
 		}))
 		direct("cpi tiny balances, no zero byte", "cpi", 1, mk(n, 1, 8, func(i int) uint64 { return uint64(i%3) * inc / 1000 }))
+	}
+	// boundary of the cut-off: seeds (found by search, hash mode 2, all balances 0 so that acceptance depends on the
+	// random byte alone) whose first zero byte is candidate 31968 / 31977 (last block of 32 before the cut-off: the
+	// real code must still return it) and candidate 32029 / 32031 (first block after it: the real code gives up,
+	// the specification's loop returns it — the stated divergence, a KNOWN-FINDING of every run)
+	for i, sd := range []string{"0727b9af485936db326daf7db4d683360baec03e7cb74c23a8705cd5e89b908e", "147d4c220a8a6412742a0fc12b5507ee3eb07ba17782f69e0813e10f1f4fb45e"} {
+		directSeed("cpi first acceptance in the last block before the cut-off", "cpi", 2, mk(3+4*i, 1, 8, zero), sd)
+	}
+	for i, sd := range []string{"966b3747af9b9f402a7770a8273ff6ae9b971539865aca2b93288b99c11e5011", "8e0d3c2c65b41dc6acb08509dbc8ccc08aae5c2a6c700ff38a35fe94da3ab4fc"} {
+		directSeed("cpi first acceptance just after the cut-off (spec returns, code gives up)", "cpi", 2, mk(2+5*i, 1, 8, zero), sd)
 	}
 	for k := 0; k < 10; k++ {
 		// accepted once in ~8192 candidates: deep into the 1000 x 32 loop, sometimes beyond it
